@@ -131,6 +131,18 @@ impl<'a> DM<'a> {
         };
         self.set(if assign { "sub_assign_unit" } else { "sub_unit" }, format!("\"u\":{}", unit_idx(u)), r, true);
     }
+    /// Unit + Unit, Unit - Unit
+    pub fn unit_pm_unit(&mut self, a: Unit, b: Unit, plus: bool) {
+        self.rec.episode();
+        let r = if plus { catch(|| a + b) } else { catch(|| a - b) };
+        self.set(if plus { "unit_add_unit" } else { "unit_sub_unit" }, format!("\"a\":{},\"b\":{}", unit_idx(a), unit_idx(b)), r, true);
+    }
+    /// Duration::from_tz_offset(sign, hours, minutes)
+    pub fn from_tz(&mut self, sign: i8, h: i64, mi: i64) {
+        self.rec.episode();
+        let r = catch(|| Duration::from_tz_offset(sign, h, mi));
+        self.set("from_tz", format!("\"sign\":{},\"h\":{},\"mi\":{}", sign, jbig(h as i128), jbig(mi as i128)), r, h != 0 || mi != 0);
+    }
     pub fn neg(&mut self) {
         let a = self.d;
         let r = catch(|| -a);
@@ -427,6 +439,12 @@ pub fn c01(rec: &mut Rec, lm: &Landmarks, rng: &mut Rng, thorough: bool) {
             m.div_i64(q);
         }
     }
+    for a in UNITS {
+        for b in UNITS {
+            m.unit_pm_unit(a, b, true);
+            m.unit_pm_unit(a, b, false);
+        }
+    }
     // (3) random chains of operations on the register
     let chains = if thorough { 40_000 } else { 1_500 };
     for _ in 0..chains {
@@ -517,6 +535,13 @@ pub fn c02(rec: &mut Rec, lm: &Landmarks, rng: &mut Rng, thorough: bool) {
     }
     m.compose(1, [7_000_001, 0, 0, 0, 0, 0, 1]);
     m.compose(-1, [0, 0, 0, 0, 0, 0, 0]);
+    // time zone offsets
+    for sign in [-1i8, 0, 1] {
+        for (h, mi) in [(0i64, 0i64), (1, 30), (23, 59), (-5, 0), (5, -30), (100_000, 7), (i64::MAX / 3_600_000_000_000, 0), (2_562_047, 47), (2_562_048, 0)] {
+            m.from_tz(sign, h, mi);
+            m.total();
+        }
+    }
     // std durations
     for secs in [0u64, 1, 59, 86_400, 3_155_760_000, 103_407_943_680_000, 103_407_943_680_001, u64::MAX / 2, u64::MAX] {
         for nanos in [0u32, 1, 999_999_999] {
@@ -664,6 +689,19 @@ pub fn step_landmarks() -> Vec<Duration> {
 
 pub fn c14_durations(m: &mut DM, g: &DurGen, rng: &mut Rng, thorough: bool) {
     let steps = step_landmarks();
+    // approx(): round to one unit of the largest non-zero component
+    for i in 0..(if thorough { 30_000 } else { 1_500 }) {
+        let v: i128 = match i % 3 {
+            0 => rng.log_i128(66),
+            1 => (rng.below(100) as i128) * *rng.pick(&[1i128, 1000, 1_000_000, 1_000_000_000, 60_000_000_000, 3_600_000_000_000, 86_400_000_000_000]) + rng.below(3) as i128 - 1,
+            _ => rng.below(3 * 86_400_000_000_000) as i128 - 86_400_000_000_000,
+        };
+        let (c, n) = safe(|| Duration::from_total_nanoseconds(v)).to_parts();
+        m.load(c, n);
+        let a = m.d;
+        let r = catch(|| a.approx());
+        m.rec.ev("x_approx", format!("\"res\":{}", jres_dur(&r)), true);
+    }
     // values at multiples of the step +/- 1 ns, both signs
     for s in &steps {
         for k in [-3i64, -2, -1, 0, 1, 2, 3, 1000, -1000] {
